@@ -216,13 +216,13 @@ class NDArrayImageStack(ImageStack[ScalarType]):
             if np.issubdtype(dtype, np.floating) and np.issubdtype(
                 dtype_raw, np.unsignedinteger
             ):
-                sclar_factor = 1.0 / UINT_MAX[dtype_raw]
+                sclar_factor = 1.0 / UINT_MAX[np.dtype(dtype_raw)]
                 imgs = sclar_factor * imgs.astype(dtype)
             elif np.issubdtype(dtype, np.unsignedinteger) and np.issubdtype(
                 dtype_raw, np.floating
             ):
-                sclar_factor = UINT_MAX[dtype]  # type: ignore
-                imgs *= (sclar_factor * imgs).astype(dtype)
+                sclar_factor = UINT_MAX[np.dtype(dtype)]  # type: ignore
+                imgs = (sclar_factor * imgs).astype(dtype)
             else:
                 imgs = imgs.astype(dtype)
 
